@@ -31,6 +31,7 @@ EXPLANATION = (
     "copies, freshly builds or moves its sources). R6.5 training and prediction siblings combine parts with the "
     "same combinator, argument order and component order, and the same call object/environment. R6.6 every "
     "eval_new_data* returns a value that depends on its data parameter on every path."
+    ' R6.9 no axis-less squeeze on the evaluation path (a one-row frame keeps its row axis).'
 )
 ASSUMPTIONS = [
     "user-registered stateful transforms and user functions from the caller's namespace are not analysed (assumed pure and fit-once)",
